@@ -176,6 +176,12 @@ static void dump_interp(MESH *m, REF_INT node) {
     fputs("interpskip not-located\n", out);
     return;
   }
+  if (ref_mpi_rank(ref_mpi) != ref_interp_part(ref_interp, node)) {
+    /* the gate of ref_metric_interpolate_node/_between: "off-part don't interpolate".  Seen in serial for a vertex
+       located by the exhaustive fallback of ref_interp_locate_between, which sets cell and bary but not part */
+    fputs("interpskip located-but-part-unset\n", out);
+    return;
+  }
   if (REF_SUCCESS != ref_cell_nodes(from_cell, ref_interp_cell(ref_interp, node), nodes)) {
     fputs("interpskip donor-cell-invalid\n", out);
     return;
